@@ -337,7 +337,10 @@ def compare_q(res, q, rtol=1e-9):
             if not close(float(x), q.d[n][int(c)], rtol=rtol, scale=ds):
                 out.append('delta %s@%d %r vs %r' % (n, c, float(x), q.d[n][int(c)]))
                 break
-        if not close(float(res.r_values[n]), q.rv[n], rtol=rtol, scale=scale):
+        # a replica mean may sit on a singularity of the expression although the central value does not (x / 0, log 0 at the mean
+        # of one replica): inf on one route and nan on the other both say "not a number there"
+        both_undef = not math.isfinite(float(res.r_values[n])) and not math.isfinite(q.rv[n])
+        if not both_undef and not close(float(res.r_values[n]), q.rv[n], rtol=rtol, scale=scale):
             out.append('r_value %s %r vs %r' % (n, float(res.r_values[n]), q.rv[n]))
         il = res.idl[n]
         l = list(il)
